@@ -171,6 +171,44 @@ for case in payload['cases']:
                                 rec['routes']['%s_with_%d_preinstalled' % (rname, pre)] = state()
                             except Exception as e:
                                 rec['errors']['%s_pre_%d' % (rname, pre)] = '%s: %s' % (iutil.errname(e), str(e)[:200])
+            # a collection that grows between two adds in one process: the second add must see the new package
+            if len(texts) >= 2:
+                with iutil.FreshDB():
+                    try:
+                        grow = os.path.join(work, 'growing')
+                        os.makedirs(grow)
+                        for j, (name, text) in enumerate(texts):
+                            d_ = os.path.join(grow, name.replace(':', '_'))
+                            os.makedirs(d_)
+                            open(os.path.join(d_, 'README.md'), 'w').write('readme')
+                            if j == 0:
+                                open(os.path.join(d_, name.replace(':', '_') + '.xml'), 'w', encoding='utf-8').write(text)
+                        wn.add(grow, progress_handler=None)
+                        for j, (name, text) in enumerate(texts):
+                            if j > 0:
+                                d_ = os.path.join(grow, name.replace(':', '_'))
+                                open(os.path.join(d_, name.replace(':', '_') + '.xml'), 'w', encoding='utf-8').write(text)
+                        wn.add(grow, progress_handler=None)
+                        rec['routes']['collection_grown_between_two_adds'] = state()
+                    except Exception as e:
+                        rec['errors']['collection_grown'] = '%s: %s' % (iutil.errname(e), str(e)[:200])
+                # a package directory whose resource file is replaced between two adds
+                with iutil.FreshDB():
+                    try:
+                        pk = os.path.join(work, 'swap_pkg')
+                        os.makedirs(pk)
+                        f0 = os.path.join(pk, 'first.xml')
+                        open(f0, 'w', encoding='utf-8').write(texts[0][1])
+                        wn.add(pk, progress_handler=None)
+                        os.unlink(f0)
+                        open(os.path.join(pk, 'second.xml'), 'w', encoding='utf-8').write(texts[1][1])
+                        wn.add(pk, progress_handler=None)
+                        st = state()
+                        want = {texts[0][0], texts[1][0]}
+                        if set(st['obs']) != want:
+                            rec['errors']['package_swapped'] = 'installed %s, expected %s' % (sorted(st['obs']), sorted(want))
+                    except Exception as e:
+                        rec['errors']['package_swapped'] = '%s: %s' % (iutil.errname(e), str(e)[:200])
             # the in-memory route with lexicons that are skipped (already installed): the caller's resource is not modified
             for pre in range(len(case['multi'])):
                 with iutil.FreshDB():
